@@ -24,7 +24,6 @@ theorem one_block_hdr72 (buf : Bytes) (hok : hdrOk buf = true) (h64 : Valid.fld 
 /-- **a parsed volume's fields agree with its buffer** (`FvHdrOk`), when the reader accepts the buffer -/
 theorem fv_hdr_est (h : Hooks) (i : FvInfo) (buf : Bytes) (files : List File) (data : Bytes)
     (hF : FvF h (.mk i buf files) data)
-    (hRA1 : i.extHeaderOffset ≠ 0 → i.extHeaderOffset + 20 < i.length)
     (hRA2 : i.resizable = true → ∃ b0 k, i.blocks = [b0] ∧ b0.size = 2 ^ k ∧ k < 32)
     (hb : FvBytesOk buf) : FvHdrOk i buf := by
   unfold FvF at hF
@@ -73,7 +72,13 @@ theorem fv_hdr_est (h : Hooks) (i : FvInfo) (buf : Bytes) (files : List File) (d
         rw [if_neg hne] at hx
         rw [hx.2.2, up8_eq_alignUp]
       · rw [if_neg hz]
-        have hlt := hRA1 hz
+        -- the reader's rule V6: a non-zero extended-header offset leaves 20 bytes inside the volume
+        have hlt : i.extHeaderOffset + 20 ≤ i.length := by
+          rw [b52, if_neg hz] at hxr
+          simp only [Bool.and_eq_true, decide_eq_true_eq] at hxr
+          have := hxr.1.1.2
+          rw [w32, hblen] at this
+          exact this
         have hhe : fvHasExt i := by unfold fvHasExt; omega
         rw [if_pos hhe] at hx
         rw [hx.2.2, hx.2.1, rd_eq_fld, hft _ 4 (by omega), up8_eq_alignUp]
